@@ -11,7 +11,7 @@ cryptographic assumptions about secretbox and crypto/rand, named in C19 and neve
 namespace Ucan.Meta
 
 inductive Err where
-  | noKey | keySize | zeroKey | shortCiphertext | decryption | notEncryptable | notFound | notBytes | duplicate
+  | noKey | keySize | zeroKey | shortCiphertext | decryption | notEncryptable | notFound | notBytes | duplicate | entropy
   deriving DecidableEq, Repr
 
 def keySize : Nat := 32
@@ -31,6 +31,17 @@ def encrypt (sealFn : Bytes → Bytes → Bytes → Bytes) (key : Option Bytes) 
   match validateKey key with
   | .error e => .error e
   | .ok k => .ok (nonce ++ sealFn k nonce data)
+
+/-- `EncryptWithKey` including the draw of the nonce: `io.ReadFull(rand.Reader, nonce[:])` delivers
+    `drawn` bytes and fails unless all 24 arrive (`src = none`: the reader failed outright) -/
+def encryptDrawing (sealFn : Bytes → Bytes → Bytes → Bytes) (key : Option Bytes) (src : Option Bytes) (data : Bytes) :
+    Except Err Bytes :=
+  match validateKey key with
+  | .error e => .error e
+  | .ok _ =>
+    match src with
+    | none => .error .entropy
+    | some drawn => if drawn.length < nonceSize then .error .entropy else encrypt sealFn key (drawn.take nonceSize) data
 
 /-- `DecryptStringWithKey` -/
 def decrypt (open_ : Bytes → Bytes → Bytes → Option Bytes) (key : Option Bytes) (data : Bytes) : Except Err Bytes :=
